@@ -551,7 +551,11 @@ class UfhController(Parent, DeviceHeat):  # UFC (02):
             c[SZ_UFH_IDX]: {
                 k: v for k, v in c.items() if k in ("temp_low", "temp_high")
             }
-            for c in self._setpoints.payload
+            for c in (
+                self._setpoints.payload
+                if isinstance(self._setpoints.payload, list)
+                else [self._setpoints.payload]
+            )
         }
 
     @property  # id, type
